@@ -379,6 +379,15 @@ def plan(ch, tier):
                ("end_game", 0.8 if ref_pv else 0.3), ("m1_start", 1.0), ("m1_stop", 0.8),
                ("remove_mv", 0.5 if flags["remove"] else 0)]
 
+    def gen_kw(c):
+        kw = {}
+        for k in ("k1", "k2"):
+            if c.flag("haskw", 0.8):
+                kw[k] = c.pick("kwv", VALS_ANY[:-1] + [2, 3])
+        return kw
+
+    kwsets = [gen_kw(ch.sub("kwset%d" % i)) for i in range(2)]
+
     def gen_op(c, depth):
         kind = c.weighted("op", weights)
         op = {"op": kind}
@@ -412,10 +421,13 @@ def plan(ch, tier):
             op["name"] = c.pick("swn", ["s_a", "s_b"])
             op["state"] = c.choice("sws", 2)
         elif kind == "post_h":
-            op["kw"] = {}
-            for k in ("k1", "k2"):
-                if c.flag("haskw", 0.8):
-                    op["kw"][k] = c.pick("kwv", VALS_ANY[:-1] + [2, 3])
+            # events mostly carry the same arguments every time: reuse one of two argument sets of this run
+            # (same kwargs, different variable state), sometimes fresh ones
+            which = c.weighted("kwset", [(0, 6), (1, 2.5), (None, 1.5)])
+            if which is not None:
+                op["kw"] = dict(kwsets[which])
+            else:
+                op["kw"] = gen_kw(c)
             op["etype"] = c.weighted("etype", [("post", 6), ("queue", 1.5), ("relay", 1.5), ("boolean", 1)])
             if depth == 0 and c.flag("inside", 0.3):
                 op["inside"] = gen_op(c.sub("in"), 1)
